@@ -97,14 +97,17 @@ def dtor_drains(text):
 
 
 def cache_suffix(text):
+    """URISpec: `if (num_parts != 1) os << ".split" << num_parts << ".part" << part_index;` -- the two tags, the
+    condition and the ORDER of the two numbers; the numbers are streamed as `unsigned` (full decimal rendering)"""
     body = _strip(_body(text, r'explicit URISpec\([^)]*\)\s*\{'))
-    m = re.search(r'if \((num_parts != 1)\) \{\s*os << "([^"]*)" << num_parts << "([^"]*)" << part_index;', body)
+    m = re.search(r'std::ostringstream os;\s*os << name_cache\[1\];\s*if \((num_parts != 1)\) \{\s*'
+                  r'os << "([^"]*)" << num_parts << "([^"]*)" << part_index;\s*\}\s*this->cache_file = os\.str\(\);', body)
     if not m:
-        raise ValueError('cache-file suffix statement not found')
-    return ('-- uri_spec.h: `if (num_parts != 1) os << "%s" << num_parts << "%s" << part_index`\n'
-            'def cacheSuffix (partIndex numParts : Nat) : String :=\n'
-            '  if numParts != 1 then "%s" ++ toString numParts ++ "%s" ++ toString partIndex else ""'
-            % (m.group(2), m.group(3), m.group(2), m.group(3)))
+        raise ValueError('cache-file suffix statement (ostringstream << tag << num_parts << tag << part_index) not found')
+    return ('-- uri_spec.h: `if (num_parts != 1) os << "%s" << num_parts << "%s" << part_index` (decimal, untruncated)\n'
+            'def cacheSuffixNeeded (numParts : Nat) : Bool := numParts != 1\n'
+            'def cacheSplitTag : String := "%s"\n'
+            'def cachePartTag : String := "%s"' % (m.group(2), m.group(3), m.group(2), m.group(3)))
 
 
 def default_cap(text):
